@@ -5,6 +5,21 @@ HERE = os.path.dirname(os.path.dirname(os.path.abspath(__file__)))
 ALL = ['C%02d' % i for i in range(1, 21)]
 
 CLAIMED = {
+ 'C12': dict(
+    level='model_checking',
+    text='Debugger.tla defines the debugger as a transition system over a recorded free run of a -g module (position in the run, set of '
+         'line breakpoints) with, for every command (stepi, nexti, step, next, continue, break, delbr), the set of admissible stops. '
+         'MC_Debugger.tla lets TLC enumerate every command history up to length K (and longer random ones) for every case - 7 fixed programs '
+         '(loops, GOSUB, recursion, nested calls, SELECT/INPUT/READ, ON ERROR handler, run ending in a trap, END followed by code) and '
+         'generated ones, at -O0/-O1/-O2 - checking in every reachable debugger state that step/next make progress into another statement, '
+         'that next never stops inside a call it stepped over and that continue stops exactly at breakpoint addresses. Every history is '
+         'replayed into qvm/dbg.py (Cmd.onecmd); after each command the instructions executed, a digest of the whole machine state and of '
+         'the device calls, and the debugger\'s answer are recorded, and Trace_Debugger.tla validates each session against the relation: '
+         'wrong stop, instructions executed by break/delbr, state or device history differing from the free run at the same instruction '
+         'count, execution past the end of the free run, wrong break address or message, crash.',
+    note='Trusted: TLC, the free-run recorder (statement of an address = innermost non-empty record of the debug map, which C11 validates), the line-to-address map computed by the harness from the records. `next` may or may not stop at an address that belongs to no statement (the property is silent).',
+    technique='TLA+ debugger relation over a recorded run; TLC-enumerated command histories replayed into qvm/dbg.py; trace validation of the sessions',
+    design='6 C12'),
  'C10': dict(
     level='model_checking',
     text='QB.tla carries the error-handler state (mode, handler, active, kind of the last error, resume point) and gives the meaning of ON '
